@@ -3,14 +3,30 @@
    every generated private function must equal what the real compiler wrote. *)
 From Coq Require Import ZArith String List Bool.
 From JMCV Require Import Base.Dec MC.Syntax MC.Print Model.Names Model.PrivAlloc Model.IfElse Model.Loop Run.Common.
+From JMCV Require Model.Cond.
 Import ListNotations.
+
+(* The (precommand lines, execute guards) pair of a condition is NOT predicted by the harness:
+   it is what property C03's model of condition.py (Model.Cond.parse_condition, the function
+   the C03 theorems are about) returns for the formula the source text was printed from.
+   wrapped = the compiler receives the round-bracket token (if / else if / while / do-while);
+   false = the bare token list (the middle part of `for (..; ..; ..)`).
+   A formula the model refuses yields a line no compiler output equals (none is generated). *)
+Definition lowc (nm : names) (wrapped : bool) (f : Cond.formula) : cond :=
+  let toks := Cond.tokens_of f in
+  match Cond.parse_condition nm (if wrapped then [Cond.TParen toks] else toks) with
+  | Some (pcs, cs) => mkCond pcs cs
+  | None => mkCond [COther "<condition refused by Model.Cond>"%string] []
+  end.
 
 Record case := mkCase {
   k_nm : names;
-  k_prog : stmts;
+  k_prog_of : names -> stmts;              (* the program; its conditions are `lowc nm …` *)
   k_real_body : string;                    (* text of the user function, or "<error>" *)
   k_real_fns : list (string * string)      (* every private function: resource name, text *)
 }.
+
+Definition k_prog (c : case) : stmts := k_prog_of c (k_nm c).
 
 Definition model_out (c : case) : option (string * list (string * string)) :=
   match compile_body (k_nm c) (k_prog c) with
